@@ -365,6 +365,9 @@ def oracle(case, irecs, mrecs):
                 fail('retained_bound', 'num_retained %d > k %d * levels %d at rest' % (ret, k, F[0]), i)
         elif c == 6 and R != [-1] and len(R) >= 2:
             ret, cnt = R[0], R[1]
+            if F and len(F) >= 3 and F[2]:
+                fail('iteration_walks_differ', 'walking the sketch by %s exposes other (point, weight) pairs than walking it by ++it' %
+                     {1: 'it++', 2: '*it++', 3: 'range-for'}.get(F[2], '?'), i)
             if ret != cnt:
                 fail('retained_vs_iteration', 'num_retained %d but iteration yields %d points' % (ret, cnt), i)
             if op[1] in regs and F:
